@@ -195,3 +195,9 @@ package logreader
 //@   requires l != nil && l.shardCache != nil
 //@   ensures [C06.deleted.drop] !has(l.shardCache.m, shardID)
 //@   modifies elems(l.shardCache.m)
+// the per-shard object the map creates on first use: every shard gets a cache of its OWN (entries of
+// one table are never served for another)
+//@ func NewShardCache$1
+//@   maypanic      // (a negative size panics in make: configuration, not a request)
+//@   ensures [C06.shard.own] result != nil && fresh(result) && result.cache != nil && fresh(result.cache)
+//@   modifies nothing
